@@ -502,7 +502,8 @@ def translate_scenarios(repo):
         if not isinstance(fn, ast.FunctionDef):
             if isinstance(fn, ast.Expr) and isinstance(fn.value, ast.Constant):
                 continue
-            raise TranslatorRejected(SCN, fn.lineno, "non-method member of Scenarios")
+            raise TranslatorRejected(SCN, fn.lineno, "non-method member of Scenarios (class-level state is shared between "
+                                     "instances; the functional model cannot express it, so it is never tolerated)")
         if fn.name in ("__init__", "check_all_set"):
             continue
         if fn.decorator_list or fn.args.vararg or fn.args.kwarg or fn.args.kwonlyargs or fn.args.defaults:
